@@ -618,7 +618,7 @@ pub fn run(cx: &mut Ctx) {
     cx.check(
         "history-vs-naive-scan",
         RULE,
-        Budget { quick: 1_500_000, thorough: 10_000_000, max_len: 900 },
+        Budget { quick: 1_500_000, thorough: 40_000_000, max_len: 900 },
         |u, st| {
             let (c, f) = gen_case(u, max_lines);
             let doc = doc_for(c.route, &c.text);
